@@ -5,7 +5,8 @@ UNITS = {'c10': Unit('c10', wrapper='props/C10/wrap.cpp', libs=['lib/mathlib.cpp
          'c10_tobig': Unit('c10_tobig', wrapper='props/C10/wrap.cpp', libs=['lib/mathlib.cpp', 'lib/errortypes.cpp'], roots=['k_tobig', 'k_tobigu'],
                            cuts=['_ZN7MathLib14toDoubleNumberERKNSt7__cxx1112basic_stringIcSt11char_traitsIcESaIcEEEPK5Token',
                                  '_ZN9simplecpp20characterLiteralToLLERKNSt7__cxx1112basic_stringIcSt11char_traitsIcESaIcEEE']),
-         'c10_char': Unit('c10_char', wrapper='props/C10/wrap.cpp', libs=['externals/simplecpp/simplecpp.cpp'], roots=['k_charlit'])}
+         'c10_char': Unit('c10_char', wrapper='props/C10/wrap.cpp', libs=['externals/simplecpp/simplecpp.cpp'], roots=['k_charlit'],
+                          cuts=['_ZNSt7__cxx1112basic_stringIcSt11char_traitsIcESaIcEE9_M_mutateEmmPKcm'])}
 META = {
     'assumptions': ['strings of bounded length over all byte values; std::stoull modelled by stubs.h ll_strtoull (C11 7.22.1.4, "C" locale)',
                     'reference grammar: C++17 [lex.icon] without digit separators; optional leading sign (cppcheck tokens may carry it)'],
@@ -20,6 +21,8 @@ def obligations(tier):
             defines={'L': L}, backend='sat', timeout=900, mem_gb=8, unwind_max=16),
         Obl('tobig.L%d' % (L - 1), 'c10_tobig', 'props/C10/harness_tobig.c', 'toBigNumber/toBigUNumber == positional value (mod 2^64) of a valid literal', 'valid literals of length <= %d' % (L - 1),
             defines={'L': L - 1}, backend='sat', timeout=1500, mem_gb=12, unwind_max=24),
+        Obl('charlit.L%d' % (L + 1), 'c10_char', 'props/C10/harness_charlit.c', 'characterLiteralToLL == value of a narrow character constant (simple/octal/hex escapes, multi-character constants)', "narrow literals '...' of total length <= %d, all bytes" % (L + 1),
+            defines={'L': L + 1}, backend='sat', timeout=1800, mem_gb=12, unwind_max=24, max_rounds=30),
     ]
 MANIFEST = {
     'text': 'Bounded model checking of the real MathLib::isInt/isDec/isIntHex/isOct/isBin/isValidIntegerSuffix and MathLib::toBigNumber/toBigUNumber (lib/mathlib.cpp, compiled to LLVM IR): for every byte string up to the bound the classifiers agree with the C++ integer-literal grammar and the converters return the positional value modulo 2^64. Kernel-level.',
